@@ -85,3 +85,13 @@ Print Assumptions C30_kernel_packetExtendInfoHint.
 Theorem C30_kernel_params : Link_C30.kernel_params_pinned.
 Proof. exact Link_C30.kernel_params_ok. Qed.
 Print Assumptions C30_kernel_params.
+
+(* relay hops can grow the extension past the 10-bit length field (sendToFriends): WriteTo writes
+   only the announced len mod 1024 bytes, so the framing stays intact — the reader gets the packet
+   with the cut extension (norm_ext) and every following packet unchanged *)
+Theorem C30_oversize_ext_keeps_framing : forall pre p post,
+  Forall wf pre -> wf (norm_ext p) -> Forall wf post ->
+  parse_stream fnv1a (concat (map (encode fnv1a) pre) ++ encode fnv1a p ++ concat (map (encode fnv1a) post))
+  = (pre ++ norm_ext p :: post, StopEOF).
+Proof. exact oversize_ext_stream. Qed.
+Print Assumptions C30_oversize_ext_keeps_framing.
